@@ -454,6 +454,61 @@ func runC05(c *ctx) {
 		c05Eval(c, c05Case{Class: "valid", Text: fmt.Sprintf("S2F3 W H->E <%s %s> .", k, text), Msg: m, Note: "near-midpoint/" + k.String()})
 	})
 
+	// plain decimals with 15..32 digits, with and without a point (hand-written digit loops wrap where strconv rounds)
+	c.parallel(c.pick(60000, 600000), func(i int, r *rng.R) {
+		k := ref.F8
+		if i%4 == 3 {
+			k = ref.F4
+		}
+		nd := 15 + r.Intn(18)
+		d := make([]byte, nd)
+		for j := range d {
+			d[j] = byte('0' + r.Intn(10))
+		}
+		if d[0] == '0' && r.Chance(3, 4) {
+			d[0] = byte('1' + r.Intn(9))
+		}
+		switch r.Intn(5) {
+		case 0: // close to a power of two in the integer part
+			copy(d, []byte(fmt.Sprint(uint64(1)<<uint(53+r.Intn(11))+uint64(r.Intn(5))-2)))
+		case 1: // just above 2^64
+			copy(d, []byte("1844674407370955161"))
+		}
+		text := string(d)
+		if r.Chance(2, 3) {
+			p := nd - r.Intn(23)
+			if p < 0 {
+				p = 0
+			}
+			text = text[:p] + "." + text[p:]
+			if p == 0 && r.Bool() {
+				text = "0" + text
+			}
+		}
+		switch r.Intn(4) {
+		case 0:
+			text = "-" + text
+		case 1:
+			text = "+" + text
+		}
+		exact, _, err := big.ParseFloat(text, 10, 2000, big.ToNearestEven)
+		if err != nil {
+			return
+		}
+		var bits uint64
+		if k == ref.F4 {
+			f, _ := exact.Float32()
+			bits = uint64(math.Float32bits(f))
+		} else {
+			f, _ := exact.Float64()
+			bits = math.Float64bits(f)
+		}
+		it := &ref.Item{Kind: k, Slots: []ref.Slot{{Uint: bits}}}
+		m := &ref.Msg{Stream: 2, Function: 3, W: 1, Dir: "H->E", Item: it, Session: -1}
+		c.Class("float-long-plain-decimal")
+		c05Eval(c, c05Case{Class: "valid", Text: fmt.Sprintf("S2F3 W H->E <%s %s> .", k, text), Msg: m, Note: "long-plain-decimal/" + k.String()})
+	})
+
 	// unspecified forms: an error, or one of the plausible readings
 	type unspec struct {
 		kind  ref.Kind
@@ -548,7 +603,7 @@ func runC05(c *ctx) {
 		c.Class("backslash-sequences")
 		c05Eval(c, c05Case{Class: "valid", Text: text, Msg: m, Note: "backslash-not-an-escape"})
 	}
-	c.Required = []string{"class/valid", "class/invalid", "class/unspecified", "float-near-midpoint", "systematic-position", "boundary-in-every-base", "backslash-sequences"}
+	c.Required = []string{"class/valid", "class/invalid", "class/unspecified", "float-near-midpoint", "float-long-plain-decimal", "systematic-position", "boundary-in-every-base", "backslash-sequences"}
 }
 
 func mathBits(v float64) uint64 { return ref.Float64Bits(v) }
